@@ -1,13 +1,97 @@
-"""C13 - distinct types, variants and named structs are nominal."""
-import json
+"""C13 - distinct types, variants and named structs are nominal.
 
+(1) relation level: the nominal-typing laws of spec/TyRelLaws.tla on the recorded relation table
+(same table as C12); (2) program level: spec/NominalProg.tla enumerates source kind x expected
+type x position (annotation, argument, return, assignment, binary operand) with the verdict of the
+rule; every case is one function checked by the real front end; (3) casts between a distinct type
+and its underlying type are executed and must keep the bytes.
+"""
+import json
+import os
+
+import common
 import props.tyrel_common as T
+from props import c08
 
 LAWS = ["Nominal", "DistinctCasts"]
+
+PRE = c08.prelude() + """D1 :: distinct i32;
+D2 :: distinct i32;
+DD :: distinct D1;
+S1 :: struct { x: i32, y: u8 };
+S2 :: struct { x: i32, y: u8 };
+E1 :: enum { A: i32, B };
+E2 :: enum { A: i32, B };
+"""
+TY = {"d1": "D1", "d2": "D2", "dd": "DD", "s1": "S1", "s2": "S2", "i32": "i32", "e1": "E1", "e2": "E2"}
+SRC = {"d1": "D1.(5)", "d2": "D2.(5)", "dd": "DD.(D1.(5))", "s1": "S1.{ x = 5, y = 6 }", "va": "E1.A.(5)", "vb": "E1.B",
+       "i32": "i32.(5)", "lit": "5"}
+SRCTY = {"d1": "D1", "d2": "D2", "dd": "DD", "s1": "S1", "va": "E1.A", "vb": "E1.B", "i32": "i32"}
+DEF = {"d1": "D1.(1)", "d2": "D2.(1)", "dd": "DD.(D1.(1))", "s1": "S1.{ x = 1, y = 1 }", "s2": "S2.{ x = 1, y = 1 }", "i32": "i32.(1)",
+       "e1": "E1.B", "e2": "E2.B"}
+
+
+def render(n, c):
+    a, b, pos = c["a"], c["b"], c["pos"]
+    B = TY[b]
+    # the source value lives in a variable of its own type (except the untyped literal)
+    src = "5" if a == "lit" else "a"
+    decl = [] if a == "lit" else ["    a : %s = %s;" % (SRCTY[a], SRC[a])]
+    if pos == "ann":
+        return "\n".join(["k%d :: () {" % n] + decl + ["    x : %s = %s;" % (B, src), "}"])
+    if pos == "arg":
+        return "\n".join(["t%d :: (p: %s) {}" % (n, B), "k%d :: () {" % n] + decl + ["    t%d(%s);" % (n, src), "}"])
+    if pos == "ret":
+        return "\n".join(["k%d :: () -> %s {" % (n, B)] + decl + ["    %s" % src, "}"])
+    if pos == "asg":
+        return "\n".join(["k%d :: () {" % n] + decl + ["    b : %s = %s;" % (B, DEF[b]), "    b = %s;" % src, "}"])
+    return "\n".join(["k%d :: () {" % n] + decl + ["    b : %s = %s;" % (B, DEF[b]), "    r := %s + b;" % src, "}"])
 
 
 def run(chk):
     T.check_laws(chk, LAWS, ["1"] if chk.tier == "quick" else ["1", "2"])
+    res = common.run_tlc("NominalProg", "NominalProg.cfg", chk.wd, workers=2, timeout=600, out_name="nom.out")
+    chk.require_tlc_ok("NominalProg.tla (nominal law on the rule; verdict per case)", res)
+    seen, cases = set(), []
+    for x in common.tlc_lines(res.out, "CASE"):
+        kk = json.dumps(x["c"], sort_keys=True)
+        if kk not in seen:
+            seen.add(kk)
+            cases.append(x)
+    os.remove(res.out)
+    cases.sort(key=lambda x: json.dumps(x["c"], sort_keys=True))
+    snips = [render(n, x["c"]) for n, x in enumerate(cases)]
+    verdicts = common.front_end_verdicts(chk, snips, PRE, "nom", per=120)
+    for n, (x, v) in enumerate(zip(cases, verdicts)):
+        c = x["c"]
+        if v["crash"]:
+            chk.violation({"kind": "front-end-crash", "pos": c["pos"]}, {"case": c, "source": snips[n], "crash": v["crash"]})
+        elif x["judged"] and v["accepted"] != x["accept"]:
+            chk.violation({"kind": "program-verdict", "a": c["a"], "b": c["b"], "pos": c["pos"], "accepted": v["accepted"]},
+                          {"case": c, "source": snips[n], "decls": PRE[-260:], "accepted_by_the_rule": x["accept"],
+                           "compiler_accepted": v["accepted"], "diagnostics": v["kinds"]})
+    # casts distinct <-> underlying keep the value
+    prog = PRE + """main :: () -> i32 {
+    v : i32 = 1234567;
+    d := D1.(v); emit(^d, 4); nl();
+    back := i32.(d); emit(^back, 4); nl();
+    dd := DD.(d); emit(^dd, 4); nl();
+    d1 := D1.(dd); emit(^d1, 4); nl();
+    s := S1.{ x = 77, y = 9 };
+    0
+}
+"""
+    r = common.run_batch([{"id": "casts", "files": {"main.capy": prog}, "run": True, "timeout_ms": 30000}], chk.wd, "nomrun", par=1)[0]
+    want = "87d61200"
+    lines = (r.get("run") or {}).get("stdout", "").split("\n")[:4]
+    if r["has_errors"] or lines != [want] * 4:
+        chk.violation({"kind": "distinct-cast"}, {"source": prog[-400:], "observed": lines, "prescribed": [want] * 4,
+                                                  "diagnostics": [d["kind"] for d in r["diags"] if d["sev"] == "error"]})
+    chk.cov["program_cases"] = len(cases)
+    chk.cov["evaluations"] += len(cases)
+    chk.cov["distinct_nontrivial"] += len(set(snips))
+    chk.cov["traces_validated_against_impl"] += len(cases)
+    chk.sample({"source": snips[5], "accept": cases[5]["accept"]})
 
 
 def replay(path):
